@@ -19,7 +19,7 @@ def main():
             continue
         m = json.load(open(mp))
         props = m.get("properties", [])
-        needs = str(m.get("needs", "")).replace("|", "/").replace("\n", " ")[:230]
+        needs = str(m.get("needs", "") or m.get("note", "")).replace("|", "/").replace("\n", " ")[:230]
         outs = []
         for pid in props:
             r = (res.get(name, {}).get("results") or {}).get(pid)
